@@ -17,6 +17,10 @@ CLAIMED = {
  'C17': dict(level='model_checking', ref='5/C17',
    text='Self-composition on one real Evolvent object: all operation sequences up to length 3 (N<=2 quick, N<=3 thorough) with symbolic arguments in float-array, list and int-array containers; last query compared term-wise with a fresh object, arguments and earlier results checked for modification through the object graph.',
    note='z3; the NPShim model of numpy copy/aliasing/dtype-on-store semantics (np.copy, np.array, np.asarray, element store into int arrays) is trusted and tied to real numpy by the native replays'),
+
+ 'C02': dict(level='model_checking', ref='5/C02',
+   text='Three solver-decided layers on the real code: (K1) CalculateGlobalR / CalculateM / CalculateNextPointCoordinate / CalculateDelta / FirstIteration against the statement\'s formulas for all real inputs (exact non-linear real arithmetic, N<=5 thorough); (L2) one real DoGlobalIteration from an arbitrary state satisfying the representation invariant (symbolic coordinates, values, M, r; <=3 evaluated trials; abstract arithmetic with sound axioms): chosen interval maximal, rule point, strictly inside, invariant re-established, so by induction every iteration index is covered; (L3) reachable concrete prefixes followed by arbitrary objective values through the public interface, checked against an independent reference implementation of the decision rule.',
+   note='z3 (QF_NRA from scratch per query for L3/K1; UF+LRA abstraction for L2); CPython; symex proxies; QueueStub contract model of depq.DEPQ and EvolventStub (N>=2) in L2; induction over iterations on paper; floats as reals'),
 }
 checks = []
 for p in props:
